@@ -1121,7 +1121,7 @@ func (w *world) genOrder() string {
 	p := w.pkgs["internal/transfer"]
 	var rows []string
 	decoders := map[string]bool{"readControlHeader": true, "readFileBegin": true, "readCredit": true, "readCreditBatch": true,
-		"readFileEnd": true, "readFileDone": true, "readFileResumeInfo": true, "readResumeRequest": true, "readDataStreams": true,
+		"readFileEnd": true, "readFileDone": true, "readFileResumeInfo": true, "readResumeRequest": true, "readDataStreams": true, "readBytesControl": true,
 		"readControlMessage": true, "readRelPathControl": true}
 	for _, f := range p.Syntax {
 		for _, d := range f.Decls {
